@@ -442,152 +442,152 @@ def deep_family(lang, fam, d):
     if lang == "wa":
         pre, post = b"func main() {\n\tx := ", b"\n\t_ = x\n}\n"
         T = {
-            "paren": pre + b"(" * D + b"1" + b")" * D + post,
-            "paren_open": pre + b"(" * D + post,
-            "neg": pre + b"-" * D + b"1" + post,
-            "not": pre + b"!" * D + b"true" + post,
-            "star": pre + b"*" * D + b"p" + post,
-            "addr": pre + b"&" * D + b"p" + post,
-            "index": pre + b"a" + b"[0]" * D + post,
-            "index_open": pre + b"a" + b"[" * D + post,
-            "call": pre + b"f(" * D + b")" * D + post,
-            "binary": pre + b"1" + b"+1" * D + post,
-            "strcat": pre + b'"a"' + b'+"a"' * D + post,
-            "selector": pre + b"a" + b".b" * D + post,
-            "methodchain": pre + b"a" + b".f()" * D + post,
-            "complit": pre + b"T" + b"{" * D + b"}" * D + post,
-            "brace_open": b"func main() " + b"{" * D,
-            "block": b"func main() " + b"{" * D + b"}" * D + b"\n",
-            "if": b"func main() {\n" + b"if x {\n" * D + b"}\n" * D + b"}\n",
-            "elseif": b"func main() {\nif x {}" + b" else if x {}" * D + b"\n}\n",
-            "for": b"func main() {\n" + b"for {\n" * D + b"}\n" * D + b"}\n",
-            "slicetype": b"type T " + b"[]" * D + b"int\n",
-            "ptrtype": b"type T " + b"*" * D + b"int\n",
-            "functype": b"type T " + b"func(" * D + b")" * D + b"\n",
-            "structtype": b"type T " + b"struct{a " * D + b"int" + b"}" * D + b"\n",
-            "maptype": b"type T " + b"map[int]" * D + b"int\n",
-            "parentype": b"type T " + b"(" * D + b"int" + b")" * D + b"\n",
-            "funclit": pre + b"func() { _ = " * D + b"1" + b"}" * D + post,
-            "digits": pre + b"1" + b"0" * D + post,
-            "floatdigits": pre + b"1." + b"9" * D + post,
-            "string": pre + b'"' + b"a" * D + b'"' + post,
-            "ident": pre + b"a" * D + post,
-            "comment": b"/*" + b"x" * D + b"*/\nfunc main() {}\n",
-            "linecomments": b"// x\n" * D + b"func main() {}\n",
-            "newlines": b"\n" * D + b"func main() {}\n",
-            "errors": b"func main() {\n" + b") ] ;\n" * D + b"}\n",
-            "stmts": b"func main() {\n" + b"x := 1\n" * D + b"}\n",
-            "funcs": b"".join(b"func f%d() {}\n" % i for i in range(D)),
-            "redecl": b"func f() {}\n" * D,
-            "vars": b"".join(b"global v%d = v%d\n" % (i, i + 1) for i in range(D)) + b"global v%d = 1\n" % D,
-            "typecycle": b"".join(b"type T%d T%d\n" % (i, i + 1) for i in range(D)) + b"type T%d int\n" % D,
-            "params": b"func f(" + b"a int, " * D + b"b int) {}\n",
-            "cases": b"func main() {\nswitch x {\n" + b"case 1:\n" * D + b"}\n}\n",
-            "imports": b'import "fmt"\n' * D,
-            "unterminated_str": pre + b'"' + b"a" * D,
-            "unterminated_comment": b"func main() {} /*" + b"a" * D,
-            "nul": b"\x00" * D,
-            "bad_utf8": b"\xff" * D,
-            "bom": BOM * D,
+            "paren": lambda: (pre + b"(" * D + b"1" + b")" * D + post),
+            "paren_open": lambda: (pre + b"(" * D + post),
+            "neg": lambda: (pre + b"-" * D + b"1" + post),
+            "not": lambda: (pre + b"!" * D + b"true" + post),
+            "star": lambda: (pre + b"*" * D + b"p" + post),
+            "addr": lambda: (pre + b"&" * D + b"p" + post),
+            "index": lambda: (pre + b"a" + b"[0]" * D + post),
+            "index_open": lambda: (pre + b"a" + b"[" * D + post),
+            "call": lambda: (pre + b"f(" * D + b")" * D + post),
+            "binary": lambda: (pre + b"1" + b"+1" * D + post),
+            "strcat": lambda: (pre + b'"a"' + b'+"a"' * D + post),
+            "selector": lambda: (pre + b"a" + b".b" * D + post),
+            "methodchain": lambda: (pre + b"a" + b".f()" * D + post),
+            "complit": lambda: (pre + b"T" + b"{" * D + b"}" * D + post),
+            "brace_open": lambda: (b"func main() " + b"{" * D),
+            "block": lambda: (b"func main() " + b"{" * D + b"}" * D + b"\n"),
+            "if": lambda: (b"func main() {\n" + b"if x {\n" * D + b"}\n" * D + b"}\n"),
+            "elseif": lambda: (b"func main() {\nif x {}" + b" else if x {}" * D + b"\n}\n"),
+            "for": lambda: (b"func main() {\n" + b"for {\n" * D + b"}\n" * D + b"}\n"),
+            "slicetype": lambda: (b"type T " + b"[]" * D + b"int\n"),
+            "ptrtype": lambda: (b"type T " + b"*" * D + b"int\n"),
+            "functype": lambda: (b"type T " + b"func(" * D + b")" * D + b"\n"),
+            "structtype": lambda: (b"type T " + b"struct{a " * D + b"int" + b"}" * D + b"\n"),
+            "maptype": lambda: (b"type T " + b"map[int]" * D + b"int\n"),
+            "parentype": lambda: (b"type T " + b"(" * D + b"int" + b")" * D + b"\n"),
+            "funclit": lambda: (pre + b"func() { _ = " * D + b"1" + b"}" * D + post),
+            "digits": lambda: (pre + b"1" + b"0" * D + post),
+            "floatdigits": lambda: (pre + b"1." + b"9" * D + post),
+            "string": lambda: (pre + b'"' + b"a" * D + b'"' + post),
+            "ident": lambda: (pre + b"a" * D + post),
+            "comment": lambda: (b"/*" + b"x" * D + b"*/\nfunc main() {}\n"),
+            "linecomments": lambda: (b"// x\n" * D + b"func main() {}\n"),
+            "newlines": lambda: (b"\n" * D + b"func main() {}\n"),
+            "errors": lambda: (b"func main() {\n" + b") ] ;\n" * D + b"}\n"),
+            "stmts": lambda: (b"func main() {\n" + b"x := 1\n" * D + b"}\n"),
+            "funcs": lambda: (b"".join(b"func f%d() {}\n" % i for i in range(D))),
+            "redecl": lambda: (b"func f() {}\n" * D),
+            "vars": lambda: (b"".join(b"global v%d = v%d\n" % (i, i + 1) for i in range(D)) + b"global v%d = 1\n" % D),
+            "typecycle": lambda: (b"".join(b"type T%d T%d\n" % (i, i + 1) for i in range(D)) + b"type T%d int\n" % D),
+            "params": lambda: (b"func f(" + b"a int, " * D + b"b int) {}\n"),
+            "cases": lambda: (b"func main() {\nswitch x {\n" + b"case 1:\n" * D + b"}\n}\n"),
+            "imports": lambda: (b'import "fmt"\n' * D),
+            "unterminated_str": lambda: (pre + b'"' + b"a" * D),
+            "unterminated_comment": lambda: (b"func main() {} /*" + b"a" * D),
+            "nul": lambda: (b"\x00" * D),
+            "bad_utf8": lambda: (b"\xff" * D),
+            "bom": lambda: (BOM * D),
         }
     elif lang == "wz":
         f = "函数·主控:\n".encode()
         e = "完毕\n".encode()
         T = {
-            "paren": f + "\t甲 := ".encode() + b"(" * D + b"1" + b")" * D + b"\n" + e,
-            "paren_open": f + "\t甲 := ".encode() + b"(" * D,
-            "neg": f + "\t甲 := ".encode() + b"-" * D + b"1\n" + e,
-            "not": f + "\t甲 := ".encode() + b"!" * D + b"1\n" + e,
-            "binary": f + "\t甲 := 1".encode() + b"+1" * D + b"\n" + e,
-            "index": f + "\t甲 := 乙".encode() + b"[0]" * D + b"\n" + e,
-            "call": f + "\t甲 := ".encode() + "乙(".encode() * D + b")" * D + b"\n" + e,
-            "selector": f + "\t甲 := 乙".encode() + "·丙".encode() * D + b"\n" + e,
-            "if": f + "如果 甲:\n".encode() * D + e * D + e,
-            "if_open": f + "如果 甲:\n".encode() * D,
-            "loop": f + "循环:\n".encode() * D + e * D + e,
-            "block": f + "区块:\n".encode() * D + e * D + e,
-            "elseif": f + "如果 甲:\n".encode() + "或者 甲:\n".encode() * D + e + e,
-            "slicetype": "类型·甲: ".encode() + b"[]" * D + "整型\n".encode(),
-            "ptrtype": "类型·甲: ".encode() + b"*" * D + "整型\n".encode(),
-            "structs": "结构·甲:\n".encode() * D,
-            "fields": "结构·甲:\n".encode() + "\t乙: 整型\n".encode() * D + e,
-            "stmts": f + "\t甲 := 1\n".encode() * D + e,
-            "funcs": b"".join("函数·甲{}:\n完毕\n".format(i).encode() for i in range(D)),
-            "consts": "常量:\n".encode() + "\t甲 = 1\n".encode() * D + e,
-            "imports": '引入 "书"\n'.encode() * D,
-            "comments": "注: 甲\n".encode() * D,
-            "digits": f + "\t甲 := 1".encode() + b"0" * D + b"\n" + e,
-            "string": f + '\t甲 := "'.encode() + b"a" * D + b'"\n' + e,
-            "ident": f + "\t".encode() + "甲".encode() * D + b" := 1\n" + e,
-            "errors": f + b") ] ;\n" * D + e,
-            "ends": e * D,
-            "dots": "·".encode() * D,
-            "colons": f + b":\n" * D,
-            "unterminated_str": f + '\t甲 := "'.encode() + b"a" * D,
+            "paren": lambda: (f + "\t甲 := ".encode() + b"(" * D + b"1" + b")" * D + b"\n" + e),
+            "paren_open": lambda: (f + "\t甲 := ".encode() + b"(" * D),
+            "neg": lambda: (f + "\t甲 := ".encode() + b"-" * D + b"1\n" + e),
+            "not": lambda: (f + "\t甲 := ".encode() + b"!" * D + b"1\n" + e),
+            "binary": lambda: (f + "\t甲 := 1".encode() + b"+1" * D + b"\n" + e),
+            "index": lambda: (f + "\t甲 := 乙".encode() + b"[0]" * D + b"\n" + e),
+            "call": lambda: (f + "\t甲 := ".encode() + "乙(".encode() * D + b")" * D + b"\n" + e),
+            "selector": lambda: (f + "\t甲 := 乙".encode() + "·丙".encode() * D + b"\n" + e),
+            "if": lambda: (f + "如果 甲:\n".encode() * D + e * D + e),
+            "if_open": lambda: (f + "如果 甲:\n".encode() * D),
+            "loop": lambda: (f + "循环:\n".encode() * D + e * D + e),
+            "block": lambda: (f + "区块:\n".encode() * D + e * D + e),
+            "elseif": lambda: (f + "如果 甲:\n".encode() + "或者 甲:\n".encode() * D + e + e),
+            "slicetype": lambda: ("类型·甲: ".encode() + b"[]" * D + "整型\n".encode()),
+            "ptrtype": lambda: ("类型·甲: ".encode() + b"*" * D + "整型\n".encode()),
+            "structs": lambda: ("结构·甲:\n".encode() * D),
+            "fields": lambda: ("结构·甲:\n".encode() + "\t乙: 整型\n".encode() * D + e),
+            "stmts": lambda: (f + "\t甲 := 1\n".encode() * D + e),
+            "funcs": lambda: (b"".join("函数·甲{}:\n完毕\n".format(i).encode() for i in range(D))),
+            "consts": lambda: ("常量:\n".encode() + "\t甲 = 1\n".encode() * D + e),
+            "imports": lambda: ('引入 "书"\n'.encode() * D),
+            "comments": lambda: ("注: 甲\n".encode() * D),
+            "digits": lambda: (f + "\t甲 := 1".encode() + b"0" * D + b"\n" + e),
+            "string": lambda: (f + '\t甲 := "'.encode() + b"a" * D + b'"\n' + e),
+            "ident": lambda: (f + "\t".encode() + "甲".encode() * D + b" := 1\n" + e),
+            "errors": lambda: (f + b") ] ;\n" * D + e),
+            "ends": lambda: (e * D),
+            "dots": lambda: ("·".encode() * D),
+            "colons": lambda: (f + b":\n" * D),
+            "unterminated_str": lambda: (f + '\t甲 := "'.encode() + b"a" * D),
         }
     elif lang == "wat":
         T = {
-            "paren_open": b"(module " + b"(" * D,
-            "paren": b"(module " + b"(" * D + b")" * D + b")",
-            "modules": b"(module " * D + b")" * D,
-            "block": b"(module (func $f\n" + b"block\n" * D + b"end\n" * D + b"))",
-            "block_open": b"(module (func $f\n" + b"block\n" * D,
-            "loop": b"(module (func $f\n" + b"loop\n" * D + b"end\n" * D + b"))",
-            "if": b"(module (func $f\n" + b"i32.const 1\nif\n" * D + b"end\n" * D + b"))",
-            "else": b"(module (func $f\ni32.const 1\nif\n" + b"else\n" * D + b"end\n))",
-            "folded": b"(module (func $f " + b"(block " * D + b")" * D + b"))",
-            "insts": b"(module (func $f\n" + b"nop\n" * D + b"))",
-            "consts": b"(module (func $f\n" + b"i32.const 1\ndrop\n" * D + b"))",
-            "funcs": b"(module\n" + b"".join(b"(func $f%d)\n" % i for i in range(D)) + b")",
-            "params": b"(module (func $f " + b"(param i32) " * D + b"))",
-            "results": b"(module (func $f " + b"(result i32) " * D + b"))",
-            "locals": b"(module (func $f " + b"(local i32) " * D + b"))",
-            "types": b"(module " + b"(type (func)) " * D + b")",
-            "brtable": b"(module (func $f\nblock\ni32.const 0\nbr_table " + b"0 " * D + b"\nend\n))",
-            "data": b'(module (memory 1) (data (i32.const 0) "' + b"a" * D + b'"))',
-            "datas": b"(module (memory 1) " + b'(data (i32.const 0) "a") ' * D + b")",
-            "dataesc": b'(module (memory 1) (data (i32.const 0) "' + b"\\00" * D + b'"))',
-            "elems": b"(module (table 1 funcref) (elem (i32.const 0) " + b"$f " * D + b"))",
-            "digits": b"(module (func $f\ni32.const 1" + b"0" * D + b"\n))",
-            "hex": b"(module (func $f\ni64.const 0x" + b"f" * D + b"\n))",
-            "ident": b"(module (func $" + b"a" * D + b"))",
-            "comments": b";; x\n" * D + b"(module)",
-            "blockcomment": b"(;" + b"x" * D + b";)(module)",
-            "blockcomment_nested": b"(;" * D + b";)" * D + b"(module)",
-            "blockcomment_open": b"(module) (;" + b"x" * D,
-            "string_open": b'(module (data (i32.const 0) "' + b"a" * D,
-            "closers": b")" * D,
-            "exports": b"(module (func $f " + b'(export "a") ' * D + b"))",
-            "imports": b"(module " + b'(import "a" "b" (func $f)) ' * D + b")",
-            "memarg": b"(module (memory 1) (func $f\ni32.const 0\ni32.load offset=1" + b"0" * D + b"\ndrop\n))",
+            "paren_open": lambda: (b"(module " + b"(" * D),
+            "paren": lambda: (b"(module " + b"(" * D + b")" * D + b")"),
+            "modules": lambda: (b"(module " * D + b")" * D),
+            "block": lambda: (b"(module (func $f\n" + b"block\n" * D + b"end\n" * D + b"))"),
+            "block_open": lambda: (b"(module (func $f\n" + b"block\n" * D),
+            "loop": lambda: (b"(module (func $f\n" + b"loop\n" * D + b"end\n" * D + b"))"),
+            "if": lambda: (b"(module (func $f\n" + b"i32.const 1\nif\n" * D + b"end\n" * D + b"))"),
+            "else": lambda: (b"(module (func $f\ni32.const 1\nif\n" + b"else\n" * D + b"end\n))"),
+            "folded": lambda: (b"(module (func $f " + b"(block " * D + b")" * D + b"))"),
+            "insts": lambda: (b"(module (func $f\n" + b"nop\n" * D + b"))"),
+            "consts": lambda: (b"(module (func $f\n" + b"i32.const 1\ndrop\n" * D + b"))"),
+            "funcs": lambda: (b"(module\n" + b"".join(b"(func $f%d)\n" % i for i in range(D)) + b")"),
+            "params": lambda: (b"(module (func $f " + b"(param i32) " * D + b"))"),
+            "results": lambda: (b"(module (func $f " + b"(result i32) " * D + b"))"),
+            "locals": lambda: (b"(module (func $f " + b"(local i32) " * D + b"))"),
+            "types": lambda: (b"(module " + b"(type (func)) " * D + b")"),
+            "brtable": lambda: (b"(module (func $f\nblock\ni32.const 0\nbr_table " + b"0 " * D + b"\nend\n))"),
+            "data": lambda: (b'(module (memory 1) (data (i32.const 0) "' + b"a" * D + b'"))'),
+            "datas": lambda: (b"(module (memory 1) " + b'(data (i32.const 0) "a") ' * D + b")"),
+            "dataesc": lambda: (b'(module (memory 1) (data (i32.const 0) "' + b"\\00" * D + b'"))'),
+            "elems": lambda: (b"(module (table 1 funcref) (elem (i32.const 0) " + b"$f " * D + b"))"),
+            "digits": lambda: (b"(module (func $f\ni32.const 1" + b"0" * D + b"\n))"),
+            "hex": lambda: (b"(module (func $f\ni64.const 0x" + b"f" * D + b"\n))"),
+            "ident": lambda: (b"(module (func $" + b"a" * D + b"))"),
+            "comments": lambda: (b";; x\n" * D + b"(module)"),
+            "blockcomment": lambda: (b"(;" + b"x" * D + b";)(module)"),
+            "blockcomment_nested": lambda: (b"(;" * D + b";)" * D + b"(module)"),
+            "blockcomment_open": lambda: (b"(module) (;" + b"x" * D),
+            "string_open": lambda: (b'(module (data (i32.const 0) "' + b"a" * D),
+            "closers": lambda: (b")" * D),
+            "exports": lambda: (b"(module (func $f " + b'(export "a") ' * D + b"))"),
+            "imports": lambda: (b"(module " + b'(import "a" "b" (func $f)) ' * D + b")"),
+            "memarg": lambda: (b"(module (memory 1) (func $f\ni32.const 0\ni32.load offset=1" + b"0" * D + b"\ndrop\n))"),
         }
     else:
         T = {
-            "paren_open": b".section .text\nf:\n\taddi a0, a0, " + b"(" * D,
-            "paren": b".section .text\nf:\n\taddi a0, a0, " + b"(" * D + b"1" + b")" * D + b"\n",
-            "insts": b".section .text\nf:\n" + b"\tnop\n" * D,
-            "labels": b".section .text\n" + b"".join(b"f%d:\n\tnop\n" % i for i in range(D)),
-            "sections": b".section .text\n" * D,
-            "datas": b".section .data\n" + b"x: .quad 1\n" * D,
-            "ascii": b'.section .data\nx: .ascii "' + b"a" * D + b'"\n',
-            "ascii_open": b'.section .data\nx: .ascii "' + b"a" * D,
-            "comments": b"# x\n" * D + b".section .text\n",
-            "slashcomments": b"// x\n" * D,
-            "digits": b".section .data\nx: .quad 1" + b"0" * D + b"\n",
-            "hex": b".section .data\nx: .quad 0x" + b"f" * D + b"\n",
-            "ident": b".section .text\n" + b"a" * D + b":\n",
-            "globls": b".globl f\n" * D,
-            "externs": b".extern f\n" * D,
-            "semis": b";" * D,
-            "newlines": b"\n" * D,
-            "commas": b".section .data\nx: .byte " + b"1," * D + b"1\n",
-            "skip": b".section .data\nx: .skip 1" + b"0" * min(D, 30) + b"\n",
-            "zh_func": "函数 f:\n".encode() * D,
-            "intel": b".intel_syntax noprefix\n" * D,
-            "plus": b".section .text\nf:\n\taddi a0, a0, 1" + b"+1" * D + b"\n",
-            "minus": b".section .text\nf:\n\taddi a0, a0, " + b"-" * D + b"1\n",
+            "paren_open": lambda: (b".section .text\nf:\n\taddi a0, a0, " + b"(" * D),
+            "paren": lambda: (b".section .text\nf:\n\taddi a0, a0, " + b"(" * D + b"1" + b")" * D + b"\n"),
+            "insts": lambda: (b".section .text\nf:\n" + b"\tnop\n" * D),
+            "labels": lambda: (b".section .text\n" + b"".join(b"f%d:\n\tnop\n" % i for i in range(D))),
+            "sections": lambda: (b".section .text\n" * D),
+            "datas": lambda: (b".section .data\n" + b"x: .quad 1\n" * D),
+            "ascii": lambda: (b'.section .data\nx: .ascii "' + b"a" * D + b'"\n'),
+            "ascii_open": lambda: (b'.section .data\nx: .ascii "' + b"a" * D),
+            "comments": lambda: (b"# x\n" * D + b".section .text\n"),
+            "slashcomments": lambda: (b"// x\n" * D),
+            "digits": lambda: (b".section .data\nx: .quad 1" + b"0" * D + b"\n"),
+            "hex": lambda: (b".section .data\nx: .quad 0x" + b"f" * D + b"\n"),
+            "ident": lambda: (b".section .text\n" + b"a" * D + b":\n"),
+            "globls": lambda: (b".globl f\n" * D),
+            "externs": lambda: (b".extern f\n" * D),
+            "semis": lambda: (b";" * D),
+            "newlines": lambda: (b"\n" * D),
+            "commas": lambda: (b".section .data\nx: .byte " + b"1," * D + b"1\n"),
+            "skip": lambda: (b".section .data\nx: .skip 1" + b"0" * min(D, 30) + b"\n"),
+            "zh_func": lambda: ("函数 f:\n".encode() * D),
+            "intel": lambda: (b".intel_syntax noprefix\n" * D),
+            "plus": lambda: (b".section .text\nf:\n\taddi a0, a0, 1" + b"+1" * D + b"\n"),
+            "minus": lambda: (b".section .text\nf:\n\taddi a0, a0, " + b"-" * D + b"1\n"),
         }
-    return T[fam] if fam else sorted(T)
+    return T[fam]() if fam else sorted(T)
 
 
 # ------------------------------------------------------------------------------------------------ input streams
